@@ -79,8 +79,13 @@ func parseRecipientsFile(name string) ([]age.Recipient, error) {
 		if err != nil {
 			if t, ok := sshKeyType(line); ok {
 				// Skip unsupported but valid SSH public keys with a warning.
-				warningf("recipients file %q: ignoring unsupported SSH key of type %q at line %d", name, t, n)
-				continue
+				// A key of a supported type that doesn't even parse is not
+				// unsupported, it's malformed.
+				_, _, _, _, perr := ssh.ParseAuthorizedKey([]byte(line))
+				if perr == nil || (t != "ssh-rsa" && t != "ssh-ed25519") {
+					warningf("recipients file %q: ignoring unsupported SSH key of type %q at line %d", name, t, n)
+					continue
+				}
 			}
 			// Hide the error since it might unintentionally leak the contents
 			// of confidential files.
